@@ -138,6 +138,17 @@ size_t secp256k1_context_preallocated_clone_size(const secp256k1_context* ctx) {
     return sizeof(secp256k1_context);
 }
 
+#ifdef SECP256K1_ZKP_VERIF
+#include "verif_hooks.h"
+/* context life-cycle events for trace validation: the blinding state is logged after every step */
+static void secp256k1_verif_emit_ctx_event(const char *name, const secp256k1_context *src, const secp256k1_context *ctx, const unsigned char *seed32, int ret);
+#define secp256k1_context_preallocated_create secp256k1_context_preallocated_create_verif_inner
+#define secp256k1_context_create secp256k1_context_create_verif_inner
+#define secp256k1_context_preallocated_clone secp256k1_context_preallocated_clone_verif_inner
+#define secp256k1_context_clone secp256k1_context_clone_verif_inner
+#define secp256k1_context_preallocated_destroy secp256k1_context_preallocated_destroy_verif_inner
+#define secp256k1_context_destroy secp256k1_context_destroy_verif_inner
+#endif
 secp256k1_context* secp256k1_context_preallocated_create(void* prealloc, unsigned int flags) {
     size_t prealloc_size;
     secp256k1_context* ret;
@@ -219,6 +230,45 @@ void secp256k1_context_destroy(secp256k1_context* ctx) {
     secp256k1_context_preallocated_destroy(ctx);
     free(ctx);
 }
+
+#ifdef SECP256K1_ZKP_VERIF
+#undef secp256k1_context_preallocated_create
+#undef secp256k1_context_create
+#undef secp256k1_context_preallocated_clone
+#undef secp256k1_context_clone
+#undef secp256k1_context_preallocated_destroy
+#undef secp256k1_context_destroy
+secp256k1_context* secp256k1_context_preallocated_create(void* prealloc, unsigned int flags) {
+    secp256k1_context *r = secp256k1_context_preallocated_create_verif_inner(prealloc, flags);
+    secp256k1_verif_emit_ctx_event("CtxCreate", NULL, r, NULL, r != NULL);
+    return r;
+}
+secp256k1_context* secp256k1_context_create(unsigned int flags) {
+    secp256k1_context *r = secp256k1_context_create_verif_inner(flags);
+    secp256k1_verif_emit_ctx_event("CtxCreate", NULL, r, NULL, r != NULL);
+    return r;
+}
+secp256k1_context* secp256k1_context_preallocated_clone(const secp256k1_context* ctx, void* prealloc) {
+    secp256k1_context *r = secp256k1_context_preallocated_clone_verif_inner(ctx, prealloc);
+    secp256k1_verif_emit_ctx_event("CtxClone", ctx, r, NULL, r != NULL);
+    return r;
+}
+secp256k1_context* secp256k1_context_clone(const secp256k1_context* ctx) {
+    secp256k1_context *r = secp256k1_context_clone_verif_inner(ctx);
+    secp256k1_verif_emit_ctx_event("CtxClone", ctx, r, NULL, r != NULL);
+    return r;
+}
+void secp256k1_context_preallocated_destroy(secp256k1_context* ctx) {
+    int proper = ctx != NULL && secp256k1_context_is_proper(ctx);
+    if (proper) secp256k1_verif_emit_ctx_event("CtxDestroy", NULL, ctx, NULL, 1);
+    secp256k1_context_preallocated_destroy_verif_inner(ctx);
+}
+void secp256k1_context_destroy(secp256k1_context* ctx) {
+    int proper = ctx != NULL && secp256k1_context_is_proper(ctx);
+    if (proper) secp256k1_verif_emit_ctx_event("CtxDestroy", NULL, ctx, NULL, 1);
+    secp256k1_context_destroy_verif_inner(ctx);
+}
+#endif
 
 void secp256k1_context_set_illegal_callback(secp256k1_context* ctx, void (*fun)(const char* message, void* data), const void* data) {
     /* We compare pointers instead of checking secp256k1_context_is_proper() here
@@ -837,6 +887,9 @@ int secp256k1_ec_pubkey_tweak_mul(const secp256k1_context* ctx, secp256k1_pubkey
     return ret;
 }
 
+#ifdef SECP256K1_ZKP_VERIF
+#define secp256k1_context_randomize secp256k1_context_randomize_verif_inner
+#endif
 int secp256k1_context_randomize(secp256k1_context* ctx, const unsigned char *seed32) {
     VERIFY_CHECK(ctx != NULL);
     ARG_CHECK(secp256k1_context_is_proper(ctx));
@@ -846,6 +899,45 @@ int secp256k1_context_randomize(secp256k1_context* ctx, const unsigned char *see
     }
     return 1;
 }
+
+#ifdef SECP256K1_ZKP_VERIF
+#undef secp256k1_context_randomize
+int secp256k1_context_randomize(secp256k1_context* ctx, const unsigned char *seed32) {
+    int proper = secp256k1_context_is_proper(ctx);
+    int ret = secp256k1_context_randomize_verif_inner(ctx, seed32);
+    if (proper) secp256k1_verif_emit_ctx_event("CtxRandomize", NULL, ctx, seed32, ret);
+    return ret;
+}
+static void secp256k1_verif_emit_ctx_event(const char *name, const secp256k1_context *src, const secp256k1_context *ctx, const unsigned char *seed32, int ret) {
+    FILE *f = secp256k1_verif_trace_open();
+    unsigned char so[32], pb[32], ge33[33];
+    size_t i;
+    if (f == NULL) return;
+    fprintf(f, "{\"seq\":%lu,\"e\":\"%s\",\"ctx\":\"%p\",\"src\":\"%p\",\"ret\":%d", ++secp256k1_verif_trace_seq, name, (const void*)ctx, (const void*)src, ret);
+    if (seed32 != NULL) {
+        fprintf(f, ",\"seed\":[");
+        for (i = 0; i < 32; i++) fprintf(f, "%s%u", i ? "," : "", seed32[i]);
+        fprintf(f, "]");
+    }
+    if (ctx != NULL && secp256k1_context_is_proper(ctx) && strcmp(name, "CtxDestroy") != 0) {
+        secp256k1_ge g = ctx->ecmult_gen_ctx.ge_offset;
+        secp256k1_fe pf = ctx->ecmult_gen_ctx.proj_blind;
+        secp256k1_scalar_get_b32(so, &ctx->ecmult_gen_ctx.scalar_offset);
+        secp256k1_fe_normalize_var(&g.x); secp256k1_fe_normalize_var(&g.y); secp256k1_fe_normalize_var(&pf);
+        ge33[0] = secp256k1_fe_is_odd(&g.y) ? 3 : 2; secp256k1_fe_get_b32(&ge33[1], &g.x);
+        secp256k1_fe_get_b32(pb, &pf);
+        fprintf(f, ",\"so\":[");
+        for (i = 0; i < 32; i++) fprintf(f, "%s%u", i ? "," : "", so[i]);
+        fprintf(f, "],\"ge\":[");
+        for (i = 0; i < 33; i++) fprintf(f, "%s%u", i ? "," : "", ge33[i]);
+        fprintf(f, "],\"pb\":[");
+        for (i = 0; i < 32; i++) fprintf(f, "%s%u", i ? "," : "", pb[i]);
+        fprintf(f, "],\"comb_bits\":%d", (int)COMB_BITS);
+    }
+    fprintf(f, "}\n");
+    fflush(f);
+}
+#endif
 
 int secp256k1_ec_pubkey_combine(const secp256k1_context* ctx, secp256k1_pubkey *pubnonce, const secp256k1_pubkey * const *pubnonces, size_t n) {
     size_t i;
